@@ -90,6 +90,26 @@ def _open(fmt, src, vec, ax, tmpdir, via_file):
     return ux.open_grid(src, use_dual=use_dual)
 
 
+def _write(fmt, m, kw, tmpdir):
+    if fmt == "ugrid":
+        return D.ugrid(m, **kw)
+    if fmt == "mpas":
+        return D.mpas(m, **kw)
+    if fmt == "scrip":
+        return D.scrip(m, **kw)
+    if fmt == "exodus":
+        return D.exodus(m, **kw)
+    if fmt == "esmf":
+        return D.esmf(m, **kw)
+    if fmt == "icon":
+        return D.icon(m)
+    if fmt == "vertices":
+        return D.face_vertices(m, **kw)
+    if fmt == "topology":
+        return D.topology(m, **kw)
+    return None
+
+
 def _judge(g, exp, fmt, bad, tol=1e-9):
     try:
         got = F.faces_of_grid(g)
@@ -191,18 +211,34 @@ def run_case(case):
         mixed = len({len(f) for f in m.faces}) > 1
         vecs, ax = _vectors(fmt, k)
         default = vecs[0]
+        # the same mesh with its faces listed in reverse: same array shapes, different rows
+        rev = m.reorder_faces(list(range(m.n_face))[::-1], m.name + "/rev") if m.n_face > 1 else None
+        snap = pool.snapshot()
         for vec in vecs:
             ndev = sum(1 for a, b in zip(vec, default) if a != b)
-            for via_file in ((False, True) if (fmt in ("ugrid", "mpas", "scrip", "exodus", "esmf", "icon") and ndev <= (0 if tier == "quick" else 1)) else (False,)):
-                foc = {"vec": [str(x) for x in vec], "file": via_file}
+            media = [(False, None)]
+            if fmt in ("ugrid", "mpas", "scrip", "exodus", "esmf", "icon") and ndev <= (0 if tier == "quick" else 1):
+                media.append((True, None))
+            if rev is not None and ndev <= 1 and fmt not in ("geojson", "shapefile"):
+                media.append((False, rev))
+            for via_file, prior in media:
+                foc = {"vec": [str(x) for x in vec], "file": via_file, "after_other_source": prior is not None}
                 if "only" in case and foc != case["only"]:
                     continue
                 kw = dict(zip([a[0] for a in ax], vec)) if ax else {}
 
                 def bad(sig, msg, foc=foc, kw=kw):
-                    V.append({"oracle": "decode", "sig": sig + (":mixed" if mixed else ":uniform"), "msg": "%s source of mesh %s, dialect %s%s: %s" % (fmt, case["mesh"], kw, " via NetCDF file" if foc["file"] else "", msg), "focus": dict(case, only=foc)})
+                    V.append({"oracle": "decode", "sig": sig + (":mixed" if mixed else ":uniform") + (":after-other-source" if foc["after_other_source"] else ""), "msg": "%s source of mesh %s, dialect %s%s%s: %s" % (fmt, case["mesh"], kw, " via NetCDF file" if foc["file"] else "", " (opened after the same mesh with reversed face order)" if foc["after_other_source"] else "", msg), "focus": dict(case, only=foc)})
 
                 pool.fresh()
+                if prior is not None:
+                    # another source of the same format and array shapes was opened earlier in this process
+                    try:
+                        rp = _write(fmt, prior, kw, tmpdir)
+                        if rp is not None:
+                            _open(fmt, rp[0], vec, ax, tmpdir, False)
+                    except Exception:
+                        pass
                 try:
                     if fmt == "ugrid":
                         r = D.ugrid(m, **kw)
@@ -242,6 +278,9 @@ def run_case(case):
                     continue
                 tol = 1e-9
                 _judge(g, exp, fmt, bad, tol)
+                md = snap.diff()
+                if md:
+                    bad("c01:%s:module-state-changed" % fmt, "opening the source left module-level state behind: %s" % md)
                 try:
                     g._ds.close()
                 except Exception:
